@@ -55,6 +55,48 @@ theorem pclean_map_kv (B : Int) : ∀ (kvs : List (Bytes × JV)),
   | nil => simp [pclean]
   | cons kv kvs ih => simp [pclean, vclean, ih]
 
+theorem ErrOK.map_tryEnd {B : Int} {o : Option Err} (h : ErrOK B o) : ErrOK B (o.map .tryEnd) := by
+  intro er her
+  cases o with
+  | none => cases her
+  | some e0 => cases her; exact h e0 rfl
+
+theorem PcOK.neg_one {B : Int} (h : 1 ≤ B) : PcOK B (-1) := ⟨by omega, by omega⟩
+
+/-- the tail of `opiter`: the remaining pairs go into a fork at the pc of `opiter` itself -/
+theorem iterEmit_hyg (B : Int) (l0 : L) (pc : Int) (l : L) (xs : List (V × V)) (hxs : pclean B xs = true)
+    (hpc : pc ≠ B) (hcall : PcOK B l.callpc) (herr : ErrOK B l.err) (hl : l.pc = l0.pc) :
+    HSpec B (HPost B l0) (iterEmit pc l xs) := by
+  simp only [iterEmit]
+  split
+  · exact HSpec.panic
+  · rename_i p v rest
+    simp only [pclean, Bool.and_eq_true] at hxs
+    have tail : HSpec B (HPost B l0) (do
+        push v
+        if (← tracking) then pathsPush (.pv p v)
+        pure (Ctl.fall, l)) := by
+      refine HSpec.bind (HSpec.push _ hxs.1) (fun _ _ => ?_)
+      refine HSpec.bind HSpec.tracking (fun b _ => ?_)
+      split
+      · exact HSpec.bind (HSpec.pathsPush _) (fun _ _ => HSpec.pure ⟨hcall, herr, Or.inl hl⟩)
+      · exact HSpec.pure ⟨hcall, herr, Or.inl hl⟩
+    split
+    · exact HSpec.bind (HSpec.pushforkOver _ _ (by simp only [vclean]; exact hxs.2) hpc) (fun _ _ => tail)
+    · exact tail
+
+theorem values_grow {B : Int} (vals : Array V) (n : Nat)
+    (h : ∀ (j : Nat) (v : V), vals[j]? = some v → vclean B v = true) :
+    ∀ (j : Nat) (v : V), (vals ++ Array.replicate n (V.jv JV.null))[j]? = some v → vclean B v = true := by
+  intro j v hv
+  rw [Array.getElem?_append] at hv
+  split at hv
+  · exact h j v hv
+  · rw [Array.getElem?_replicate] at hv
+    split at hv
+    · simp at hv; rw [← hv]; rfl
+    · simp at hv
+
 /-- side conditions on values -/
 macro "hy_val" : tactic => `(tactic| first
   | assumption
@@ -62,23 +104,23 @@ macro "hy_val" : tactic => `(tactic| first
   | (simp [vclean, eclean, pclean, CallResOK, pclean_enumFrom, pclean_map_kv] at *; done)
   | (simp_all [vclean, eclean, pclean, CallResOK, pclean_enumFrom, pclean_map_kv]; done))
 
-macro "hy_prim" H:ident : tactic => `(tactic| first
+macro "hy_prim" : tactic => `(tactic| first
   | exact HSpec.pop | exact HSpec.stackTop | exact HSpec.getValue _ | exact HSpec.popscope
   | exact HSpec.pathsPush _ | exact HSpec.pathsPop | exact HSpec.pathsTop | exact HSpec.envIndex _ _
   | exact HSpec.getEnv | exact HSpec.tracking | exact HSpec.asJV _ | exact HSpec.pathIntact _
   | exact HSpec.poppaths | exact HSpec.pushPaths _ _ | exact HSpec.objectLoop _ _ _ | exact HSpec.popArgs _
   | exact HSpec.panic | exact HSpec.stuck
-  | exact HSpec.extCall _ ($H).ext
-  | exact HSpec.pushfork _ (($H).pc rfl).1
-  | exact HSpec.push _ (by hy_val)
-  | exact HSpec.setValue _ _ (by hy_val)
-  | exact HSpec.pushforkOver _ _ (by hy_val) (($H).pc rfl).1
-  | exact HSpec.modify _ (fun _ h => ⟨h.stack, h.values, h.scopes, h.forks⟩))
+  | refine HSpec.extCall _ ?_
+  | refine HSpec.pushfork _ ?_
+  | refine HSpec.push _ ?_
+  | refine HSpec.setValue _ _ ?_
+  | refine HSpec.pushforkOver _ _ ?_ ?_
+  | refine HSpec.modify _ ?_)
 
 /-- the control postcondition at a `pure (ctl, l')` -/
 macro "hy_post" H:ident : tactic => `(tactic| (
   apply HSpec.pure
-  refine ⟨?_, ?_, ?_⟩ <;> first
+  refine And.intro ?_ (And.intro ?_ ?_) <;> first
     | exact ($H).callpc
     | exact ($H).err
     | exact ErrOK.none
@@ -86,172 +128,274 @@ macro "hy_post" H:ident : tactic => `(tactic| (
     | exact Or.inl rfl
     | rfl
     | exact ($H).tgt _ rfl
-    | (apply ErrOK.of_clean; hy_val)))
+    | exact ErrOK.map_tryEnd ($H).err
+    | exact ($H).pc rfl
+    | exact PcOK.neg_one ($H).pos
+    | exact Or.inr (by assumption)
+    | exact (by assumption : PcOK _ _).1
+    | (apply ErrOK.of_clean; hy_val)
+    | (simp_all [vclean]; done)))
 
 macro "hy_exec" H:ident : tactic => `(tactic| repeat' (first
-  | with_reducible hy_prim $H
+  | with_reducible hy_prim
+  | with_reducible refine iterEmit_hyg _ _ _ _ _ ?_ ?_ ?_ ?_ ?_
   | hy_post $H
-  | with_reducible refine HSpec.bind ?_ (fun _ _ => ?_)
-  | split))
+  | exact HSpec.pure (φ := fun _ => True) trivial
+  | (with_reducible apply HSpec.bind
+     rotate_left
+     intro _ _
+     rotate_right)
+  | split
+  | exact ($H).ext
+  | exact ($H).callpc
+  | exact ($H).err
+  | exact (($H).pc rfl).1
+  | exact fun _ h => ⟨h.stack, h.values, h.scopes, h.forks⟩
+  | (simp only [vclean, bne_iff_ne, ne_eq]; exact ($H).tgt _ rfl)
+  | hy_val))
 
 theorem exec_hyg_nop (B : Int) (x : ExtRec) (l : L) (H : HygL B Instr.nop x l) :
     HSpec B (HPost B l) (exec Instr.nop x l) := by
-  simp only [exec, exec.execIndex, iterEmit, iterInvalid, pathBroken]
+  simp only [exec, exec.execIndex, iterInvalid, pathBroken]
+  have herr := H.err
+  unfold ErrOK at herr
   hy_exec H
 
 theorem exec_hyg_push (B : Int) (v : JV) (x : ExtRec) (l : L) (H : HygL B (Instr.push v) x l) :
     HSpec B (HPost B l) (exec (Instr.push v) x l) := by
-  simp only [exec, exec.execIndex, iterEmit, iterInvalid, pathBroken]
+  simp only [exec, exec.execIndex, iterInvalid, pathBroken]
+  have herr := H.err
+  unfold ErrOK at herr
   hy_exec H
 
 theorem exec_hyg_pop (B : Int) (x : ExtRec) (l : L) (H : HygL B Instr.pop x l) :
     HSpec B (HPost B l) (exec Instr.pop x l) := by
-  simp only [exec, exec.execIndex, iterEmit, iterInvalid, pathBroken]
+  simp only [exec, exec.execIndex, iterInvalid, pathBroken]
+  have herr := H.err
+  unfold ErrOK at herr
   hy_exec H
 
 theorem exec_hyg_dup (B : Int) (x : ExtRec) (l : L) (H : HygL B Instr.dup x l) :
     HSpec B (HPost B l) (exec Instr.dup x l) := by
-  simp only [exec, exec.execIndex, iterEmit, iterInvalid, pathBroken]
+  simp only [exec, exec.execIndex, iterInvalid, pathBroken]
+  have herr := H.err
+  unfold ErrOK at herr
   hy_exec H
 
 theorem exec_hyg_const (B : Int) (v : JV) (x : ExtRec) (l : L) (H : HygL B (Instr.const v) x l) :
     HSpec B (HPost B l) (exec (Instr.const v) x l) := by
-  simp only [exec, exec.execIndex, iterEmit, iterInvalid, pathBroken]
+  simp only [exec, exec.execIndex, iterInvalid, pathBroken]
+  have herr := H.err
+  unfold ErrOK at herr
   hy_exec H
 
 theorem exec_hyg_load (B : Int) (a : Int) (b : Int) (x : ExtRec) (l : L) (H : HygL B (Instr.load a b) x l) :
     HSpec B (HPost B l) (exec (Instr.load a b) x l) := by
-  simp only [exec, exec.execIndex, iterEmit, iterInvalid, pathBroken]
+  simp only [exec, exec.execIndex, iterInvalid, pathBroken]
+  have herr := H.err
+  unfold ErrOK at herr
   hy_exec H
 
 theorem exec_hyg_store (B : Int) (a : Int) (b : Int) (x : ExtRec) (l : L) (H : HygL B (Instr.store a b) x l) :
     HSpec B (HPost B l) (exec (Instr.store a b) x l) := by
-  simp only [exec, exec.execIndex, iterEmit, iterInvalid, pathBroken]
+  simp only [exec, exec.execIndex, iterInvalid, pathBroken]
+  have herr := H.err
+  unfold ErrOK at herr
   hy_exec H
 
 theorem exec_hyg_object (B : Int) (n : Int) (x : ExtRec) (l : L) (H : HygL B (Instr.object n) x l) :
     HSpec B (HPost B l) (exec (Instr.object n) x l) := by
-  simp only [exec, exec.execIndex, iterEmit, iterInvalid, pathBroken]
+  simp only [exec, exec.execIndex, iterInvalid, pathBroken]
+  have herr := H.err
+  unfold ErrOK at herr
   hy_exec H
 
 theorem exec_hyg_append (B : Int) (a : Int) (b : Int) (x : ExtRec) (l : L) (H : HygL B (Instr.append a b) x l) :
     HSpec B (HPost B l) (exec (Instr.append a b) x l) := by
-  simp only [exec, exec.execIndex, iterEmit, iterInvalid, pathBroken]
+  simp only [exec, exec.execIndex, iterInvalid, pathBroken]
+  have herr := H.err
+  unfold ErrOK at herr
   hy_exec H
 
 theorem exec_hyg_fork (B : Int) (t : Int) (x : ExtRec) (l : L) (H : HygL B (Instr.fork t) x l) :
     HSpec B (HPost B l) (exec (Instr.fork t) x l) := by
-  simp only [exec, exec.execIndex, iterEmit, iterInvalid, pathBroken]
+  simp only [exec, exec.execIndex, iterInvalid, pathBroken]
+  have herr := H.err
+  unfold ErrOK at herr
   hy_exec H
 
 theorem exec_hyg_forktrybegin (B : Int) (t : Int) (x : ExtRec) (l : L) (H : HygL B (Instr.forktrybegin t) x l) :
     HSpec B (HPost B l) (exec (Instr.forktrybegin t) x l) := by
-  simp only [exec, exec.execIndex, iterEmit, iterInvalid, pathBroken]
+  simp only [exec, exec.execIndex, iterInvalid, pathBroken]
+  have herr := H.err
+  unfold ErrOK at herr
   hy_exec H
 
 theorem exec_hyg_forktryend (B : Int) (x : ExtRec) (l : L) (H : HygL B Instr.forktryend x l) :
     HSpec B (HPost B l) (exec Instr.forktryend x l) := by
-  simp only [exec, exec.execIndex, iterEmit, iterInvalid, pathBroken]
+  simp only [exec, exec.execIndex, iterInvalid, pathBroken]
+  have herr := H.err
+  unfold ErrOK at herr
   hy_exec H
 
 theorem exec_hyg_forkalt (B : Int) (t : Int) (x : ExtRec) (l : L) (H : HygL B (Instr.forkalt t) x l) :
     HSpec B (HPost B l) (exec (Instr.forkalt t) x l) := by
-  simp only [exec, exec.execIndex, iterEmit, iterInvalid, pathBroken]
+  simp only [exec, exec.execIndex, iterInvalid, pathBroken]
+  have herr := H.err
+  unfold ErrOK at herr
   hy_exec H
 
 theorem exec_hyg_forklabel (B : Int) (a : Int) (b : Int) (x : ExtRec) (l : L) (H : HygL B (Instr.forklabel a b) x l) :
     HSpec B (HPost B l) (exec (Instr.forklabel a b) x l) := by
-  simp only [exec, exec.execIndex, iterEmit, iterInvalid, pathBroken]
+  simp only [exec, exec.execIndex, iterInvalid, pathBroken]
+  have herr := H.err
+  unfold ErrOK at herr
   hy_exec H
 
 theorem exec_hyg_backtrack (B : Int) (x : ExtRec) (l : L) (H : HygL B Instr.backtrack x l) :
     HSpec B (HPost B l) (exec Instr.backtrack x l) := by
-  simp only [exec, exec.execIndex, iterEmit, iterInvalid, pathBroken]
+  simp only [exec, exec.execIndex, iterInvalid, pathBroken]
+  have herr := H.err
+  unfold ErrOK at herr
   hy_exec H
 
 theorem exec_hyg_jump (B : Int) (t : Int) (x : ExtRec) (l : L) (H : HygL B (Instr.jump t) x l) :
     HSpec B (HPost B l) (exec (Instr.jump t) x l) := by
-  simp only [exec, exec.execIndex, iterEmit, iterInvalid, pathBroken]
+  simp only [exec, exec.execIndex, iterInvalid, pathBroken]
+  have herr := H.err
+  unfold ErrOK at herr
   hy_exec H
 
 theorem exec_hyg_jumpifnot (B : Int) (t : Int) (x : ExtRec) (l : L) (H : HygL B (Instr.jumpifnot t) x l) :
     HSpec B (HPost B l) (exec (Instr.jumpifnot t) x l) := by
-  simp only [exec, exec.execIndex, iterEmit, iterInvalid, pathBroken]
+  simp only [exec, exec.execIndex, iterInvalid, pathBroken]
+  have herr := H.err
+  unfold ErrOK at herr
   hy_exec H
 
 theorem exec_hyg_index (B : Int) (k : JV) (x : ExtRec) (l : L) (H : HygL B (Instr.index k) x l) :
     HSpec B (HPost B l) (exec (Instr.index k) x l) := by
-  simp only [exec, exec.execIndex, iterEmit, iterInvalid, pathBroken]
+  simp only [exec, exec.execIndex, iterInvalid, pathBroken]
+  have herr := H.err
+  unfold ErrOK at herr
   hy_exec H
 
 theorem exec_hyg_indexarray (B : Int) (k : JV) (x : ExtRec) (l : L) (H : HygL B (Instr.indexarray k) x l) :
     HSpec B (HPost B l) (exec (Instr.indexarray k) x l) := by
-  simp only [exec, exec.execIndex, iterEmit, iterInvalid, pathBroken]
+  simp only [exec, exec.execIndex, iterInvalid, pathBroken]
+  have herr := H.err
+  unfold ErrOK at herr
   hy_exec H
 
 theorem exec_hyg_call (B : Int) (t : Int) (x : ExtRec) (l : L) (H : HygL B (Instr.call t) x l) :
     HSpec B (HPost B l) (exec (Instr.call t) x l) := by
-  simp only [exec, exec.execIndex, iterEmit, iterInvalid, pathBroken]
+  simp only [exec, exec.execIndex, iterInvalid, pathBroken]
+  have herr := H.err
+  unfold ErrOK at herr
   hy_exec H
 
 theorem exec_hyg_callNative (B : Int) (kd : NativeKind) (n : Int) (x : ExtRec) (l : L) (H : HygL B (Instr.callNative kd n) x l) :
     HSpec B (HPost B l) (exec (Instr.callNative kd n) x l) := by
-  simp only [exec, exec.execIndex, iterEmit, iterInvalid, pathBroken]
+  simp only [exec, exec.execIndex, iterInvalid, pathBroken]
+  have herr := H.err
+  unfold ErrOK at herr
   hy_exec H
 
 theorem exec_hyg_callrec (B : Int) (t : Int) (x : ExtRec) (l : L) (H : HygL B (Instr.callrec t) x l) :
     HSpec B (HPost B l) (exec (Instr.callrec t) x l) := by
-  simp only [exec, exec.execIndex, iterEmit, iterInvalid, pathBroken]
+  simp only [exec, exec.execIndex, iterInvalid, pathBroken]
+  have herr := H.err
+  unfold ErrOK at herr
   hy_exec H
 
 theorem exec_hyg_pushpc (B : Int) (t : Int) (x : ExtRec) (l : L) (H : HygL B (Instr.pushpc t) x l) :
     HSpec B (HPost B l) (exec (Instr.pushpc t) x l) := by
-  simp only [exec, exec.execIndex, iterEmit, iterInvalid, pathBroken]
+  simp only [exec, exec.execIndex, iterInvalid, pathBroken]
+  have herr := H.err
+  unfold ErrOK at herr
   hy_exec H
 
 theorem exec_hyg_callpc (B : Int) (x : ExtRec) (l : L) (H : HygL B Instr.callpc x l) :
     HSpec B (HPost B l) (exec Instr.callpc x l) := by
-  simp only [exec, exec.execIndex, iterEmit, iterInvalid, pathBroken]
+  simp only [exec, exec.execIndex, iterInvalid, pathBroken]
+  have herr := H.err
+  unfold ErrOK at herr
   hy_exec H
 
 theorem exec_hyg_scope (B : Int) (a : Int) (b : Int) (c : Int) (x : ExtRec) (l : L) (H : HygL B (Instr.scope a b c) x l) :
     HSpec B (HPost B l) (exec (Instr.scope a b c) x l) := by
-  simp only [exec, exec.execIndex, iterEmit, iterInvalid, pathBroken]
-  hy_exec H
+  simp only [exec]
+  refine HSpec.bind HSpec.getEnv (fun e _ => ?_)
+  refine HSpec.bind (ψ := fun r => PcOK B r.1) ?_ (fun r hr => ?_)
+  · split
+    · split
+      · exact HSpec.pure H.callpc
+      · exact HSpec.popscope
+    · exact HSpec.pure H.callpc
+  · refine HSpec.bind HSpec.getEnv (fun e2 _ => ?_)
+    refine HSpec.bind (ψ := fun _ => True) ?_ (fun oi _ => ?_)
+    · split
+      · split
+        · exact HSpec.panic
+        · exact HSpec.pure trivial
+      · exact HSpec.pure trivial
+    · refine HSpec.bind (HSpec.modify _ ?_) (fun _ _ => ?_)
+      · intro e3 h3
+        exact ⟨h3.stack, h3.values, push_all (fun b => PcOK B b.value.pc) e3.scopes _ h3.scopes hr, h3.forks⟩
+      · refine HSpec.bind HSpec.getEnv (fun e4 _ => ?_)
+        split
+        · refine HSpec.bind (HSpec.modify _ ?_) (fun _ _ => HSpec.pure ⟨hr, H.err, Or.inl rfl⟩)
+          intro e5 h5
+          exact ⟨h5.stack, values_grow _ _ h5.values, h5.scopes, h5.forks⟩
+        · exact HSpec.pure ⟨hr, H.err, Or.inl rfl⟩
 
 theorem exec_hyg_ret (B : Int) (x : ExtRec) (l : L) (H : HygL B Instr.ret x l) :
     HSpec B (HPost B l) (exec Instr.ret x l) := by
-  simp only [exec, exec.execIndex, iterEmit, iterInvalid, pathBroken]
+  simp only [exec, exec.execIndex, iterInvalid, pathBroken]
+  have herr := H.err
+  unfold ErrOK at herr
   hy_exec H
 
 theorem exec_hyg_iter (B : Int) (x : ExtRec) (l : L) (H : HygL B Instr.iter x l) :
     HSpec B (HPost B l) (exec Instr.iter x l) := by
-  simp only [exec, exec.execIndex, iterEmit, iterInvalid, pathBroken]
+  simp only [exec, exec.execIndex, iterInvalid, pathBroken]
+  have herr := H.err
+  unfold ErrOK at herr
   hy_exec H
 
 theorem exec_hyg_expbegin (B : Int) (x : ExtRec) (l : L) (H : HygL B Instr.expbegin x l) :
     HSpec B (HPost B l) (exec Instr.expbegin x l) := by
-  simp only [exec, exec.execIndex, iterEmit, iterInvalid, pathBroken]
+  simp only [exec, exec.execIndex, iterInvalid, pathBroken]
+  have herr := H.err
+  unfold ErrOK at herr
   hy_exec H
 
 theorem exec_hyg_expend (B : Int) (x : ExtRec) (l : L) (H : HygL B Instr.expend x l) :
     HSpec B (HPost B l) (exec Instr.expend x l) := by
-  simp only [exec, exec.execIndex, iterEmit, iterInvalid, pathBroken]
+  simp only [exec, exec.execIndex, iterInvalid, pathBroken]
+  have herr := H.err
+  unfold ErrOK at herr
   hy_exec H
 
 theorem exec_hyg_pathbegin (B : Int) (x : ExtRec) (l : L) (H : HygL B Instr.pathbegin x l) :
     HSpec B (HPost B l) (exec Instr.pathbegin x l) := by
-  simp only [exec, exec.execIndex, iterEmit, iterInvalid, pathBroken]
+  simp only [exec, exec.execIndex, iterInvalid, pathBroken]
+  have herr := H.err
+  unfold ErrOK at herr
   hy_exec H
 
 theorem exec_hyg_pathend (B : Int) (x : ExtRec) (l : L) (H : HygL B Instr.pathend x l) :
     HSpec B (HPost B l) (exec Instr.pathend x l) := by
-  simp only [exec, exec.execIndex, iterEmit, iterInvalid, pathBroken]
+  simp only [exec, exec.execIndex, iterInvalid, pathBroken]
+  have herr := H.err
+  unfold ErrOK at herr
   hy_exec H
 
 theorem exec_hyg_bad (B : Int) (x : ExtRec) (l : L) (H : HygL B Instr.bad x l) :
     HSpec B (HPost B l) (exec Instr.bad x l) := by
-  simp only [exec, exec.execIndex, iterEmit, iterInvalid, pathBroken]
+  simp only [exec, exec.execIndex, iterInvalid, pathBroken]
+  have herr := H.err
+  unfold ErrOK at herr
   hy_exec H
 
 /-- every opcode keeps the hygiene -/
